@@ -13,7 +13,7 @@ N_EXH = 4 + 16 + 64 + 256 + 1024  # histories of length 1..5 over an alphabet of
 CONFIGS = [(k, mn) for k in (1, 2, 3, 4) for mn in (0.0, 0.5, 1.0)]
 BUDGET = {
     "quick": {"runs": 1000, "wall": 420, "chunk": 5, "per_run_cap": 240},
-    "thorough": {"runs": N_EXH * len(CONFIGS) + 3000, "wall": 3300, "chunk": 20, "per_run_cap": 240},
+    "thorough": {"runs": N_EXH * len(CONFIGS) + 8000, "wall": 3400, "chunk": 20, "per_run_cap": 240},
 }
 RULE = (
     "a run = one NashMTL instance (update_weights_every k in 1..4, max_norm in {0,0.5,1}, optim_niter in "
@@ -33,6 +33,7 @@ ASSUMPTIONS = [
     "ECOS through cvxpy is bitwise reproducible for identical problem data and warm-start history within one process (re-verified by `simjd selftest determinism`)",
     "matrices are well-conditioned (entries O(1), distinct random rows) as the property's quantifier states",
     "reuse-call outputs are compared with alpha_ref @ J within 1e-6 relative (dtype conversion path may differ), everything else bitwise",
+    "the norm bound is asserted up to the rounding of the final weights @ J product: 64*(m+n)*eps*|| |weights| @ |J| || (weights observed through a forward hook on aggregator.weighting)",
 ]
 
 
@@ -126,15 +127,27 @@ def _make(params, every=None):
 
 
 def _run_segment(A, mats, seam, start_call=0):
-    """Feeds matrices to A; returns list of (bytes or None, exc, solver entries)."""
+    """Feeds matrices to A; returns list of (bytes or None, exc, solver entries, vector, rounding slack)."""
     res = []
+    seen = []
+    handle = None
+    if hasattr(A, "weighting") and isinstance(A.weighting, torch.nn.Module):
+        # observe (not alter) the weights of each call: needed to bound the rounding of weights @ J
+        handle = A.weighting.register_forward_hook(lambda mod, inp, out: seen.append(out.detach().to(torch.float64).abs().numpy().copy()))
     for i, J in enumerate(mats):
         seam.begin_call(start_call + i)
+        del seen[:]
         try:
             out = A(J)
-            res.append((out.detach().numpy().tobytes(), None, seam.entries_this_call, out.detach().to(torch.float64).numpy().copy()))
+            eps = 1.1920929e-07 if J.dtype == torch.float32 else 2.220446049250313e-16
+            slack = None
+            if seen and seen[-1].shape == (J.shape[0],):
+                slack = 64.0 * (J.shape[0] + J.shape[1]) * eps * float(np.linalg.norm(seen[-1] @ J.detach().to(torch.float64).abs().numpy()))
+            res.append((out.detach().numpy().tobytes(), None, seam.entries_this_call, out.detach().to(torch.float64).numpy().copy(), slack))
         except Exception as e:  # noqa: BLE001
-            res.append((None, f"{type(e).__name__}: {str(e)[:200]}", seam.entries_this_call, None))
+            res.append((None, f"{type(e).__name__}: {str(e)[:200]}", seam.entries_this_call, None, None))
+    if handle is not None:
+        handle.remove()
     return res
 
 
@@ -168,7 +181,7 @@ def execute(scn):
         # ---- oracle: every call returns; solver schedule; norm bound
         for si, seg in enumerate(segments):
             for ci, j in enumerate(seg):
-                b, exc, entries, vec = outs[si][ci]
+                b, exc, entries, vec, slack = outs[si][ci]
                 events.append([si, ci, j, exc, entries, None if b is None else digest(b)])
                 if exc is not None:
                     viols.append({"clause": "call_raised", "step": [si, ci], "details": {"exc": exc, "call_since_reset": ci, "every": k, "reuse_call": ci % k != 0}, "key": {"reuse_call": ci % k != 0, "exc": exc.split(":")[0]}})
@@ -182,7 +195,7 @@ def execute(scn):
                     stats["reach.reuse_call"] = stats.get("reach.reuse_call", 0) + 1
                 if not np.all(np.isfinite(vec)):
                     viols.append({"clause": "nonfinite_output", "step": [si, ci], "details": {}, "key": {}})
-                elif p["max_norm"] > 0 and float(np.linalg.norm(vec)) > p["max_norm"] * (1 + 1e-5) + 1e-12:
+                elif p["max_norm"] > 0 and float(np.linalg.norm(vec)) > p["max_norm"] * (1 + 1e-6) + (slack if slack is not None else 1e-4 * p["max_norm"]) + 1e-12:
                     viols.append({"clause": "norm_exceeds_max_norm", "step": [si, ci], "details": {"norm": float(np.linalg.norm(vec)), "max_norm": p["max_norm"]}, "key": {}})
         if any(v["clause"] == "call_raised" for v in viols):
             return _result(scn, viols, events, stats, sets, segments, k)
